@@ -682,9 +682,9 @@ func genNames(s *sink, tlcCases string) {
 		{{1, 16000}, {1, 18000}, {1, 11535}, {3, 20000}}, // storage totals 65535, 65536, 65537
 		{{1, 16000}, {1, 18000}, {1, 11536}, {3, 20000}},
 		{{1, 16000}, {1, 18000}, {1, 11537}, {3, 20000}},
-		{{1, 65535}, {3, 65534}},                         // both fields at their maximum: ends at 131069
-		{{1, 40000}, {1, 40000}, {1, 10}},                // third string would start at 80000: refuse or reorder
-		{{1, 40000}, {1, 40000}, {1, 40000}},             // cannot be represented at all: refuse
+		{{1, 65535}, {3, 65534}},             // both fields at their maximum: ends at 131069
+		{{1, 40000}, {1, 40000}, {1, 10}},    // third string would start at 80000: refuse or reorder
+		{{1, 40000}, {1, 40000}, {1, 40000}}, // cannot be represented at all: refuse
 		{{3, 60000}, {3, 60000}, {1, 5}},
 	}
 	mtag, wtag := pickLang(rng, 1, "m0"), pickLang(rng, 3, "w409")
